@@ -16,12 +16,13 @@ c_NoNames == {}
 
 c_ShapesSample ==
   { [id |-> "kv|path", grp |-> "kv", body |-> FALSE, writes |-> FALSE, lim |-> {}, kinds |-> {},
-     refix |-> FALSE, refid |-> TRUE, params |-> TRUE],
+     refix |-> FALSE, refid |-> TRUE, params |-> TRUE, vars |-> {}],
     [id |-> "vector+body|k", grp |-> "vector", body |-> TRUE, writes |-> FALSE, lim |-> {"k"},
-     kinds |-> {"string", "int", "floats"}, refix |-> TRUE, refid |-> FALSE, params |-> FALSE],
+     kinds |-> {"string", "int", "floats"}, refix |-> TRUE, refid |-> FALSE, params |-> FALSE,
+     vars |-> {"plusOpt", "minusAlt", "minusAltPlusOpt"}],
     [id |-> "vector+body+w|batch", grp |-> "vector", body |-> TRUE, writes |-> TRUE, lim |-> {"batch"},
-     kinds |-> {"string", "objects"}, refix |-> TRUE, refid |-> FALSE, params |-> FALSE],
+     kinds |-> {"string", "objects"}, refix |-> TRUE, refid |-> FALSE, params |-> FALSE, vars |-> {}],
     [id |-> "index+w|path", grp |-> "index", body |-> FALSE, writes |-> TRUE, lim |-> {}, kinds |-> {},
-     refix |-> TRUE, refid |-> FALSE, params |-> TRUE] }
+     refix |-> TRUE, refid |-> FALSE, params |-> TRUE, vars |-> {}] }
 c_NoShapes == {}
 =============================================================================
